@@ -46,7 +46,15 @@ Classify(b) ==
                 ELSE IF it.mt # 4 \/ Len(it.kids) # 2 \/ it.kids[1].mt # 6 \/ ToSmall(ArgN(it.kids[1])) # 24 \/ it.kids[1].kids[1].mt # 2 \/ it.kids[2].mt # 0 THEN Bad("byron-envelope")
                 ELSE LET pl == Parse(it.kids[1].kids[1].str) IN
                      IF IsErr(pl) \/ pl.mt # 4 \/ Len(pl.kids) # 3 \/ pl.kids[1].mt # 2 \/ Len(pl.kids[1].str) # 28 \/ pl.kids[2].mt # 5 \/ pl.kids[3].mt # 0 THEN Bad("byron-payload")
-                     ELSE [ok |-> "byron", payload |-> it.kids[1].kids[1].str, crc |-> ArgN(it.kids[2]), indef |-> it.indef \/ it.kids[1].kids[1].indef]
+                     \* known: the payload uses only what every implementation reads alike - type 0 / 1 / 2 and attribute keys 1 (bytes) and 2 (bytes).
+                     \* The Byron CDDL leaves room for other types and attributes; whether a strict parser takes those is not part of the property.
+                     ELSE [ok |-> "byron", payload |-> it.kids[1].kids[1].str, crc |-> ArgN(it.kids[2]), indef |-> it.indef \/ it.kids[1].kids[1].indef,
+                           known |-> /\ Len(ArgN(pl.kids[3])) <= 1 /\ ToSmall(ArgN(pl.kids[3])) \in {0, 1, 2}
+                                     /\ \A j \in 1..(Len(pl.kids[2].kids) \div 2) : LET k == pl.kids[2].kids[2*j-1] v == pl.kids[2].kids[2*j] IN
+                                            k.mt = 0 /\ Len(ArgN(k)) <= 1 /\ ToSmall(ArgN(k)) \in {1, 2} /\ v.mt = 2
+                                            \* key 2 is bytes .cbor u32 (the protocol magic)
+                                            /\ (ToSmall(ArgN(k)) = 2 => LET m == Parse(v.str) IN ~IsErr(m) /\ m.mt = 0 /\ Len(ArgN(m)) <= 4)
+                                     /\ \A i, j \in 1..(Len(pl.kids[2].kids) \div 2) : i # j => ArgN(pl.kids[2].kids[2*i-1]) # ArgN(pl.kids[2].kids[2*j-1])]
     [] OTHER -> Bad("header")
 \* what the strict parser must report for a valid Shelley-era address, and its canonical bytes
 ToBytes(r) == LET hdr(t) == <<t * 16 + r.net>> IN
